@@ -165,7 +165,11 @@ CLAIMED = {
               'supported representation code with samples and bursts, record patterns with a short last record, random '
               'physical layout) are indexed and loaded by the real FileIndex / LogPass with several (slice, channel subset) '
               'loads per LogPass object; the real event plan, rows, implied X values, seekLr targets and the index entries are '
-              'validated by TLC against LisFramesTrace.tla and the matrix is compared with the recorded values.'),
+              'validated by TLC against LisFramesTrace.tla and the matrix is compared with the recorded values.  The indexer: '
+              'TLC checks LisIndex.tla (entry list + data-type -> current log pass map) against the declarative answer for every '
+              'conformant record sequence of <= 4 (5) records over 15 record kinds incl. alternate data, and every sequence '
+              '(LisIndexTable) is rendered as a real file and indexed by the real FileIndex: listed records at true positions in '
+              'order, every log pass with its frame count and first X.'),
         note=('The planner itself is not transcribed: its real output is validated as a trace. Known finding F11 (implied X after a '
               'record change) is recognised by exact emulation. Slices are bounded ones with step >= 1 (API restriction).'),
         technique='TLA+ spec + TLC model checking of the plan interpreter; TLC trace validation of real plans and results'),
